@@ -106,6 +106,7 @@ def run(ctx):
     ctx.check_property_file()
     thorough = ctx.tier == "thorough"
     cands = [g for g in c02.gen_grammars(ctx, 140 if not thorough else 1200) if not g.has_error()]
+    cands.insert(0, cfggen.family(9))   # wide alternatives: $10, $T11, ... (SDT rewriting of two-digit references)
     recs, stats, ws = lrcommon.prepare_parsers(ctx, cands, flags=[])
     recs = [r for r in recs if r.bin][: (36 if not thorough else 400)]
     res, errs = lrobl.check_all(recs, lrobl.LR_CHECKS, "c03")
